@@ -192,6 +192,18 @@ def string_ops(label, s, focus):
                      "b[%d] = 97; print(String.from_utf8(b));" % j,
                      E("ValueError", "Invalid Unicode encountered at byte %d with index %d." % (B[k], k)))
                 P.op("restore", "b[%d] = %d; print(String.from_utf8(b) == s);" % (j, B[j]), ["true"])
+    inner = [k for k in bds if 0 < k < L]
+    if inner:
+        k = inner[0]
+        suf = s[cidx[k]:]
+        P.expr("find(long suffix s[%d..len], 0)" % k, "s.find(s[%d..%d], 0)" % (k, L), ref_find(B, suf.encode("utf-8"), 0))
+        P.expr("find(long suffix, just after its start)", "s.find(s[%d..%d], %d)" % (k, L, inner[1] if len(inner) > 1 else k),
+               ref_find(B, suf.encode("utf-8"), inner[1] if len(inner) > 1 else k))
+        pre = s[:cidx[k]]
+        P.expr("replace(long prefix s[0..%d], X).len()" % k, "s.replace(s[0..%d], \"X\").len()" % k, [str(len(s.replace(pre, "X").encode("utf-8")))])
+        P.expr("split(long prefix).len()", "s.split(s[0..%d]).len()" % k, [str(len(s.split(pre)))])
+        P.expr("to_bytes()[%d] (negative)" % (k - L), "b[(%d)]" % (k - L), [str(B[k])])
+        P.expr("to_bytes()[(%d)..(-1)].len()" % (k - L), "b[(%d)..(-1)].len()" % (k - L), [str(L - 1 - k)])
     P.expr("char_byte_index(count_chars - 1)", "s.char_byte_index(%d)" % (n - 1), ref_cbi(s, n - 1))
     P.expr("char_byte_index(count_chars)", "s.char_byte_index(%d)" % n, ref_cbi(s, n))
     # iteration: number of characters, and the characters at the focus positions
